@@ -346,7 +346,6 @@ def install_late(spec: Spec):
             ensures=[('not_empty_when_raise_if_none', 'implies(raise_if_none, len(result) > 0)', ['C12'])],
             raises=[RaisesClause('CancelledError', label='cancelled'),
                     RaisesClause('TimeoutError', label='not_completed_in_time', origin='asyncio.wait_for'),
-                    RaisesClause('AssertionError', label='result_is_none', tags=['C12']),
                     RaisesClause('BaseException', label='requested_raise', tags=['C11', 'C12'], origin='raise@',
                                  ensures=[('only_if_asked', 'raise_if_any or raise_if_none', ['C11', 'C12'])]),
                     RaisesClause('KeyError', label='dict_comprehension', caller_only=True)])
